@@ -105,6 +105,17 @@ func (s *RPCServer) handleWS(ctx context.Context, w http.ResponseWriter, r *http
 		}
 	}
 
+	// A cancelled context has to end the connection even while the connection
+	// routine is blocked in a write to a peer that has stopped reading: closing
+	// the socket is what unblocks that write.
+	go func() {
+		select {
+		case <-ctx.Done():
+			_ = c.Close()
+		case <-wc.exiting:
+		}
+	}()
+
 	lbl := pprof.Labels("jrpc-mode", "wsserver", "jrpc-remote", r.RemoteAddr, "jrpc-uuid", uuid.New().String())
 	pprof.Do(ctx, lbl, func(ctx context.Context) {
 		wc.handleWsConn(ctx)
